@@ -339,6 +339,8 @@ META = (META[0] + ' NEGMIN (no negation of a possible numeric_limits::min(): not
 
 META = (META[0] + ' CONDORDER (counted C-string routines test the count before they read the element: reading one past a full field is not a constant expression).', META[1])
 
+META = (META[0] + ' INTFB (the constant-evaluation fallback of popcount is evaluated from its source for every 8-bit value and boundary values of the wider types against the bit count).', META[1])
+
 
 def run(chk, tier):
     db = D.load("plain")
@@ -472,6 +474,9 @@ def run(chk, tier):
     _AR.positive_controls(chk, D, ("NEGMIN",))
     nzb_rule(chk, db)
     aliasmode_rule(chk, db)
+    from ..rules import intfb as _IFB
+    if _IFB.check(chk, db) < 1:      # INTFB: the integer fallback of popcount computes popcount
+        chk.unknown_instance('INTFB', 'etl::detail::popcount_fallback', 'the constant-evaluation fallback of popcount was not found')
     from ..rules import extra8 as _X8c
     _X8c.cond_order_area(chk, D.load('checks'), ['_string/char_traits', '_cstring/', '_cwchar/', '_strings/cstr'])      # CONDORDER: reading one past a full field is not a constant expression
     from ..rules import shift as _SH
